@@ -16,8 +16,9 @@ import Rtcm.Gen.Tables
   enough turns ends with exactly the sequential results.  What this rests on, and what a proof about
   the model cannot establish, is that a step of the *implementation* touches only the instance and
   its locals; the correspondence run samples exactly that (concurrent threads at a minimal switch
-  interval, tables digested before and after).  Interleavings finer than a field (CPython
-  bytecodes) are not modelled.
+  interval, tables digested before and after).  `C13_threads_any_granularity` states the same for
+  any private state type and any atomic step that is a function of (tables, own state), so the
+  choice of one field per step is not essential.
 -/
 namespace Rtcm
 
